@@ -393,6 +393,15 @@ pub fn diff<CS: BbsCiphersuite>(rep: &Report, ck: &str, op: &Op) -> D {
                     cb.drain(off..off + 32);
                 }
                 Mutn::TrailingByte => cb.push(1),
+                Mutn::IdentityPoint(_) => {
+                    cb[..48].iter_mut().for_each(|x| *x = 0);
+                    cb[0] = 0xc0;
+                }
+                Mutn::ZeroScalar(i) => {
+                    let n = (cb.len() - 48) / 32;
+                    let off = 48 + 32 * pick(*i, n);
+                    cb[off..off + 32].iter_mut().for_each(|x| *x = 0);
+                }
                 _ => {}
             }
             let lib_sig = BlindSignature::<BBSplus<CS>>::blind_sign(sk, pk, Some(&cb), h.as_deref(), Some(&ms)).map(|s| s.to_bytes().to_vec()).map_err(|e| format!("{:?}", e));
@@ -601,6 +610,20 @@ pub fn run(ctx: &Ctx, rep: &Report) -> Meta {
             msgs: MsgVec { items: vec![BSpec { len: 1 << 20, class: 0, seed: 1 }, BSpec { len: 0, class: 0, seed: 2 }] } });
     }
     par_items(ctx, rep, "boundaries", &fixed, |op| run_op(rep, "boundaries", op));
+    // every message count in a contiguous range: Sign octets, the verifier's decision, a proof made by either side
+    let mut sweep: Vec<Op> = vec![];
+    for l in 0..=ctx.tier.pick(72usize, 260usize) {
+        let suite = if l % 2 == 0 { SuiteId::Sha256 } else { SuiteId::Shake256 };
+        let key = KeySpec { fixture: l % 3 == 0, ikm: BSpec { len: 32, class: 0, seed: l as u32 }, key_info: OptBytes::None, key_dst: OptBytes::None };
+        let msgs = MsgVec { items: (0..l).map(|j| BSpec { len: [3usize, 0, 32][j % 3], class: 0, seed: (l * 100 + j) as u32 }).collect() };
+        let header = [OptBytes::None, OptBytes::Bytes(BSpec { len: 16, class: 0, seed: 2 })][l % 2].clone();
+        sweep.push(Op::Sign { suite, key: key.clone(), header: header.clone(), msgs: msgs.clone() });
+        sweep.push(Op::Proof { suite: suite.other(), key: key.clone(), header: header.clone(), ph: OptBytes::None, msgs: msgs.clone(), mask: 0x5a5a_a5a5, by_ref: l % 2 == 0, seed: l as u32, m: Mutn::None });
+        if l <= 40 {
+            sweep.push(Op::Blind { suite, key, header, ph: OptBytes::None, msgs: MsgVec { items: msgs.items.iter().take(l / 2).cloned().collect() }, committed: MsgVec { items: msgs.items.iter().skip(l / 2).cloned().collect() }, mask: 0x3c3c_c3c3, cmask: 0x0f0f_f0f0, by_ref: l % 2 == 1, seed: l as u32, m: Mutn::None });
+        }
+    }
+    par_items(ctx, rep, "size-sweep", &sweep, |op| run_op(rep, "size-sweep", op));
     run_cases(ctx, rep, "schedules", ctx.tier.pick(48, 400), 60, schedule_strat, |s| run_schedule(rep, "schedules", s));
     Meta {
         rule: "generated operations: KeyGen/SkToPk (ikm 0..200 octets, key_info up to 65536, key_dst up to 300 or None), histories of create_generators(count, api_id) calls (count 0..=64 quick / 1100 thorough; api_id in {None, empty, both API ids, BLIND_-prefixed, random ASCII}), \
